@@ -47,6 +47,22 @@ OrderOK(outer, subs, observed) ==
           (t \notin NonUnique \/ Listings(outer, subs, t) = 1) => Cardinality({i \in DOMAIN observed : observed[i] = t}) = 1
     /\ \A i, j \in DOMAIN observed : (i < j /\ observed[i] # observed[j]) => ~Before(outer, subs, observed[j], observed[i])
 
+\* NESTED trees: the same record read as a chain - subs[1] embedded in the outer application, subs[2] embedded in
+\* subs[1] (and so on).  "The embedding application's wrappers are outer to the embedded one's" then orders ALL levels:
+\* a type sits at the outermost level that lists it, levels are ordered outside-in, a level's own list order holds.
+LevelOf(outer, subs, t) == IF InOuter(outer, t) THEN 0
+                           ELSE CHOOSE s \in DOMAIN subs : (\E i \in DOMAIN subs[s] : subs[s][i] = t)
+                                                            /\ \A r \in 1..(s - 1) : ~(\E i \in DOMAIN subs[r] : subs[r][i] = t)
+PosAtLevel(outer, subs, t) == IF InOuter(outer, t) THEN PosIn(outer, t) ELSE PosIn(subs[LevelOf(outer, subs, t)], t)
+ChainBefore(outer, subs, a, b) ==
+    \/ LevelOf(outer, subs, a) < LevelOf(outer, subs, b)
+    \/ (LevelOf(outer, subs, a) = LevelOf(outer, subs, b) /\ PosAtLevel(outer, subs, a) < PosAtLevel(outer, subs, b))
+OrderOKChain(outer, subs, observed) ==
+    /\ {observed[i] : i \in DOMAIN observed} = Wrappers(outer, subs)
+    /\ \A t \in Wrappers(outer, subs) :
+          (t \notin NonUnique \/ Listings(outer, subs, t) = 1) => Cardinality({i \in DOMAIN observed : observed[i] = t}) = 1
+    /\ \A i, j \in DOMAIN observed : (i < j /\ observed[i] # observed[j]) => ~ChainBefore(outer, subs, observed[j], observed[i])
+
 VARIABLES outerL, subsL
 wvars == <<outerL, subsL>>
 WInit == /\ outerL \in {l \in Lists : NoDup(l)}
@@ -56,6 +72,8 @@ WSpec == WInit /\ [][UNCHANGED wvars]_wvars
 OuterOrderAdmissible ==
     LET obs == SelectSeq(outerL, LAMBDA t : t \in WTypes)
     IN subsL = <<>> => OrderOK(outerL, subsL, obs)
+\* the chain order refines the tree order (whatever is admissible for the chain is admissible for siblings)
+ChainRefinesTree == \A a, b \in Wrappers(outerL, subsL) : (a # b /\ Before(outerL, subsL, a, b)) => ChainBefore(outerL, subsL, a, b)
 EmitTree == PrintT(<<"EMIT", ToJson([outer |-> outerL, subs |-> subsL,
                                      wrappers |-> Wrappers(outerL, subsL)])>>)
 =============================================================================
